@@ -178,6 +178,13 @@ def check_tree(ctx, tr, rng, k, quick):
             begin(wv)
             wv.returned = []
             wv.raise_at, wv.raise_in = ((k + off) % max(nhooks, 1), 'vfile') if off % 2 else (None, None)
+            if off % 2 and use_imatch:
+                # a folder validation that raises: its on_error value is a result like any other
+                ticks = [e for e in base_log if e[0] != 'reset']
+                vd = [i for i, e in enumerate(ticks) if e[0] == 'vdir']
+                if vd:
+                    wv.raise_at, wv.raise_in = vd[(k + off) % len(vd)], 'vdir'
+                    ctx.count('pass_through_folder_errors')
             got_v = list(wv.imatch()) if use_imatch else wv.match()
             ctx.evals()
             ctx.count('pass_through_runs')
@@ -298,6 +305,10 @@ def check_tree(ctx, tr, rng, k, quick):
                 if hasattr(w, 'raised_kind'):
                     if ('error', w.raised_file) not in w.log:
                         ctx.disagree('a raising validation hook does not reach on_error', wit)
+                    elif ('error', w.raised_file) not in out:
+                        # what on_error returned for it (a folder or a file) is part of the results
+                        ctx.disagree('the value on_error returned for an entry whose validation raised is not yielded', dict(wit, yielded=len(out)))
+                    ctx.count('error_records_' + kind)
                     if kind == 'vfile':
                         routed = [e for e in w.log if e[1] == w.raised_file and e[0] in ('match', 'skip')]
                         if len(routed) != 1:
